@@ -196,7 +196,7 @@ func init() {
 		Assumptions: append([]string{"objectpath encoding uses golang.org/x/tools v0.48.0, the version garble itself is built with", "original and garbled declarations correspond one to one in order (checked: a mismatch aborts the run as an infrastructure error)"}, commonAssumptions...),
 		ReplayUnit:  "TestC13Replay",
 		Units: []Unit{
-			{Name: "TestC13", Kind: "e2e", Checks: [2]int{4, 40}, Workers: [2]int{3, 8}},
+			{Name: "TestC13", Kind: "e2e", Checks: [2]int{3, 25}, Workers: [2]int{3, 8}},
 		},
 	}
 }
@@ -220,7 +220,7 @@ func init() {
 		Assumptions: append([]string{"garble's stdout and stderr go to buffers, never to a pipe whose reader may exit first", "the grid is sampled by rapid in the quick tier and walked more densely in the thorough tier; it is not exhaustive"}, commonAssumptions...),
 		ReplayUnit:  "TestC19Replay",
 		Units: []Unit{
-			{Name: "TestC19", Kind: "e2e", Checks: [2]int{8, 80}, Workers: [2]int{3, 8}},
+			{Name: "TestC19", Kind: "e2e", Checks: [2]int{6, 40}, Workers: [2]int{3, 8}},
 		},
 	}
 }
@@ -233,7 +233,7 @@ func init() {
 		ReplayUnit:  "TestC15Replay",
 		Units: []Unit{
 			{Name: "TestVerifC15Struct", Kind: "inproc", Pkg: ".", Checks: [2]int{20000, 500000}, Workers: [2]int{1, 4}},
-			{Name: "TestC15", Kind: "e2e", Checks: [2]int{4, 40}, Workers: [2]int{3, 8}},
+			{Name: "TestC15", Kind: "e2e", Checks: [2]int{3, 25}, Workers: [2]int{3, 8}},
 		},
 	}
 }
@@ -271,7 +271,7 @@ func init() {
 		Assumptions: append([]string{"entries are sampled by rapid (quick) and more densely (thorough), not enumerated exhaustively; deleting the whole GOCACHE (a full std rebuild) is left to the thorough tier of C03/C06"}, commonAssumptions...),
 		ReplayUnit:  "TestC07Replay",
 		Units: []Unit{
-			{Name: "TestC07", Kind: "e2e", Checks: [2]int{6, 60}, Workers: [2]int{3, 8}},
+			{Name: "TestC07", Kind: "e2e", Checks: [2]int{5, 30}, Workers: [2]int{3, 8}},
 		},
 	}
 }
@@ -283,7 +283,7 @@ func init() {
 		Assumptions: append([]string{"reproducibility (C03) is presupposed: configurations with an open C03 finding are not part of the histories"}, commonAssumptions...),
 		ReplayUnit:  "TestC06Replay",
 		Units: []Unit{
-			{Name: "TestC06", Kind: "e2e", Checks: [2]int{2, 15}, Workers: [2]int{3, 6}, Shrink: "3m"},
+			{Name: "TestC06", Kind: "e2e", Checks: [2]int{2, 8}, Workers: [2]int{3, 6}, Shrink: "3m"},
 		},
 	}
 }
@@ -304,7 +304,7 @@ func init() {
 		Assumptions: append([]string{"kill instants are sampled in time, not enumerated per write: a window of microseconds can be missed"}, commonAssumptions...),
 		ReplayUnit:  "TestC18Replay",
 		Units: []Unit{
-			{Name: "TestC18", Kind: "e2e", Checks: [2]int{3, 25}, Workers: [2]int{2, 4}, Shrink: "2m"},
+			{Name: "TestC18", Kind: "e2e", Checks: [2]int{3, 15}, Workers: [2]int{2, 4}, Shrink: "2m"},
 		},
 	}
 }
